@@ -524,8 +524,14 @@ impl LanguageServer for Backend {
             }
 
             doc_lock.retain(|url, _| {
-                // `change.uri` could be a directory so use `starts_with` instead of `==`.
-                let to_remove = url.as_str().starts_with(change.uri.as_str());
+                // `change.uri` could be a directory: a document is gone when it is the deleted file
+                // or lies below the deleted directory - not when its name merely begins like it
+                // (`notes.md` next to a deleted `notes`).
+                let deleted = change.uri.as_str().trim_end_matches('/');
+                let to_remove = url
+                    .as_str()
+                    .strip_prefix(deleted)
+                    .is_some_and(|rest| rest.is_empty() || rest.starts_with('/'));
 
                 if to_remove {
                     urls_to_clear.push(url.clone());
